@@ -46,7 +46,8 @@ def targets():
     t += [("src/api.rs", n) for n, _ in rs2lean_guards.TARGETS] + [("src/api.rs", "convert_mp4_error"), ("src/api.rs", "encode_video"), ("src/api.rs", "encode_audio")]
     t += [("src/codec/h264.rs", n) for n in ("extract_avc_config", "is_h264_keyframe", "annexb_to_avcc")]
     t += [("src/codec/h265.rs", n) for n in ("hevc_nal_type", "is_hevc_keyframe_nal_type", "extract_hevc_config", "is_hevc_keyframe", "hevc_annexb_to_hvcc")]
-    t += [("src/fragmented.rs", n) for n in ("current_fragment_duration_ms", "ready_to_flush", "write_video", "flush_segment")]
+    t += [("src/fragmented.rs", n) for n in ("current_fragment_duration_ms", "ready_to_flush", "write_video", "flush_segment",
+                                             "build_trun", "build_traf", "build_moof_with_offset", "build_moof", "build_media_segment")]
     return t
 
 
